@@ -25,7 +25,8 @@ ALLCLS = DAG_FAM + CYC_FAM + ["MinErrorFlow", "MinGenSet", "MinSetCover", "NumPa
 OO_POOL = [{"optimize_with_greedy": False}, {"optimize_with_safe_zero_edges": True}, {"optimize_with_safe_sequences": False}, {"optimize_with_greedy": True},
            {"optimize_with_safe_sequences_fix_zero_edges": True}, {"optimize_with_flow_safe_paths": True}, {"allow_empty_paths": False}, {"allow_empty_walks": False},
            {"use_subgraph_scanning_lowerbound": True}, {"use_min_gen_set_lowerbound": True}, {"optimize_with_guessed_weights": True},
-           {"use_subgraph_scanning_lowerbound": True, "optimize_with_greedy": False}, {"optimize_with_safety_as_subpath_constraints": True, "optimize_with_safe_paths": True}]
+           {"use_subgraph_scanning_lowerbound": True, "optimize_with_greedy": False}, {"optimize_with_safe_sequences_fix_via_bounds": True},
+           {"optimize_with_safe_sequences_fix_via_bounds": True, "optimize_with_safe_sequences_fix_zero_edges": True}, {"optimize_with_safety_as_subpath_constraints": True, "optimize_with_safe_paths": True}]
 
 
 def gen_cases(tier, seed):
@@ -44,7 +45,7 @@ def gen_cases(tier, seed):
         dflt = (i % 8 == 0)
         c = {"cyc": cyc, "spec": I.spec_of(base), "steps": steps, "planted": len(base["planted"]), "oo": dict(rng.choice(OO_POOL)), "dflt": dflt,
              "group": "dflt" if dflt else "t1", "ignore": [], "cons": [], "scale": [], "superset": None, "share_ignore": rng.random() < 0.5, "node": node,
-             "probe_dict": (not node) and cyc and rng.random() < 0.4}
+             "probe_dict": (not node) and cyc and rng.random() < 0.4, "pending": rng.random() < 0.35}
         if rng.random() < 0.4 and base["planted"]:
             c["cons"] = gen.jl(I.constraints_from_planted(rng, base, n=1))
         elems = base["nodes"] if node else base["edges"]
@@ -172,6 +173,15 @@ def _run_case(case):
     if case["dflt"]:
         obs["c18.default_arg_histories"] += 1
     hist = []
+    # a model that is constructed BEFORE the history and solved only AFTER it (other models are built and solved in between):
+    # its result, and theirs, must be the same as in isolation
+    pending = None
+    if case.get("pending"):
+        pcls = case["steps"][0]
+        pkw = build_args(pcls, case, shared, ks[0])
+        r = M.safe_call(getattr(fp, pcls), shared["G"], **pkw)
+        if r[0] == "ok":
+            pending = (pcls, r[1]); obs["c18.pending_models"] += 1
     for i, cls in enumerate(case["steps"]):
         kw = build_args(cls, case, shared, ks[i])
         obs["c18.steps"] += 1
@@ -204,6 +214,23 @@ def _run_case(case):
         obs["c18.arg_objects_compared"] += 1; obs["c18.probe_dict_checks"] += 1
         if d != before:
             viol.append({"sig": "C18/caller-object-mutated/max_edge_repetition_dict/AbstractWalkModelDiGraph", "msg": f"caller-owned max_edge_repetition_dict changed: {[(e, before[e], d[e]) for e in d if d[e] != before[e]][:4]}; {desc}"})
+    if pending is not None:
+        pcls, pm = pending
+        s_ = M.safe_call(pm.solve)
+        if s_[0] != "ok":
+            pres = ("solve-" + s_[1],)
+        elif not pm.is_solved():
+            pres = ("unsolved",)
+        else:
+            g1 = M.safe_call(pm.get_solution); o1 = M.safe_call(pm.get_objective_value)
+            nroutes = len(models.routes_of(g1[1])) if g1[0] == "ok" and isinstance(g1[1], dict) and models.routes_of(g1[1]) is not None else None
+            pres = ("solved", round(o1[1], 6) if o1[0] == "ok" and isinstance(o1[1], (int, float)) else str(o1[1:]), nroutes)
+        fs = fresh_shared(case)
+        iso = outcome(pcls, fs["G"], build_args(pcls, case, fs, ks[0]), False, viol, obs, "")
+        obs["c18.isolation_pairs"] += 1
+        if iso != pres:
+            viol.append({"sig": f"C18/result-depends-on-history/{pcls}/constructed-before-solved-after",
+                         "msg": f"{pcls} (k={ks[0]}) constructed first and solved after the steps {case['steps']} gives {pres} but {iso} in isolation; {desc}"})
     # isolation: the same constructions with fresh copies and no history
     for i, cls in enumerate(case["steps"]):
         fs = fresh_shared(case)
